@@ -40,8 +40,8 @@ def pollute_other_objects():
     if _POLLUTED:
         return
     _POLLUTED = True
-    old = signal.signal(signal.SIGALRM, _alarm)
-    signal.setitimer(signal.ITIMER_REAL, 10)
+    old = signal.signal(signal.SIGPROF, _alarm)
+    signal.setitimer(signal.ITIMER_PROF, 10)
     try:
         from pywhy_graphs import CPDAG
         from pywhy_graphs.algorithms import pag as pagmod
@@ -61,8 +61,8 @@ def pollute_other_objects():
     except (Exception, _Timeout):
         pass
     finally:
-        signal.setitimer(signal.ITIMER_REAL, 0)
-        signal.signal(signal.SIGALRM, old)
+        signal.setitimer(signal.ITIMER_PROF, 0)
+        signal.signal(signal.SIGPROF, old)
 
 
 def build_cpdag(g, lab):
@@ -92,8 +92,8 @@ def run_impl(pdag, fam="int", rule=None, i=None, j=None):
         G = build_cpdag(pdag, lab)
     except Exception as e:
         return "err:build:" + type(e).__name__
-    old = signal.signal(signal.SIGALRM, _alarm)
-    signal.setitimer(signal.ITIMER_REAL, TIMEOUT_S)
+    old = signal.signal(signal.SIGPROF, _alarm)
+    signal.setitimer(signal.ITIMER_PROF, TIMEOUT_S)
     try:
         if rule is None and C.warm_decide({"g": pdag, "fam": fam}, 4) and pdag["U"]:
             # the same CPDAG object is closed, emptied, refilled with the real input and closed again
@@ -114,7 +114,7 @@ def run_impl(pdag, fam="int", rule=None, i=None, j=None):
                 pagmod._apply_meek_rules(G)
             except (Exception, _Timeout):
                 pass
-            signal.setitimer(signal.ITIMER_REAL, TIMEOUT_S)
+            signal.setitimer(signal.ITIMER_PROF, TIMEOUT_S)
             G.clear_edges()
             for a, b in pdag["D"]:
                 G.add_edge(lab(a), lab(b), "directed")
@@ -132,8 +132,8 @@ def run_impl(pdag, fam="int", rule=None, i=None, j=None):
     except Exception as e:
         return "err:" + type(e).__name__
     finally:
-        signal.setitimer(signal.ITIMER_REAL, 0)
-        signal.signal(signal.SIGALRM, old)
+        signal.setitimer(signal.ITIMER_PROF, 0)
+        signal.signal(signal.SIGPROF, old)
 
 
 def parse_graph(s):
@@ -468,13 +468,13 @@ def run_stress(name, spec):
         G.add_edge(a, b, "directed")
     for a, b in spec["U"]:
         G.add_edge(a, b, "undirected")
-    old = signal.signal(signal.SIGALRM, _alarm)
+    old = signal.signal(signal.SIGPROF, _alarm)
     # The ladder is tiny (about 170 edges): only an algorithm that walks its 2^40 directed paths one by one fails
     # to finish, so a timeout there is reported.  On the deep chain a correct but quadratic / cubic closure is
     # merely slow: a timeout (60 s cap) is "inconclusive", never a violation - only an exception (RecursionError)
     # or a wrong result is.
     chain = spec.get("slow_ok", False)
-    signal.setitimer(signal.ITIMER_REAL, 60 if chain else TIMEOUT_S)
+    signal.setitimer(signal.ITIMER_PROF, 60 if chain else TIMEOUT_S)
     try:
         pagmod._apply_meek_rules(G)
     except _Timeout:
@@ -482,8 +482,8 @@ def run_stress(name, spec):
     except BaseException as e:
         return "raised %s" % type(e).__name__
     finally:
-        signal.setitimer(signal.ITIMER_REAL, 0)
-        signal.signal(signal.SIGALRM, old)
+        signal.setitimer(signal.ITIMER_PROF, 0)
+        signal.signal(signal.SIGPROF, old)
     if not all(G.has_edge(a, b, "directed") for a, b in spec["expectD"] + spec["D"]):
         return "an expected orientation is missing"
     if len(list(G.undirected_edges)) != len(spec["expectU"]):
